@@ -335,13 +335,15 @@ func (r *Run) Finish() int {
 	for _, k := range keys {
 		fmt.Printf("KNOWN-FINDING: property=%s key=%s %s\n", r.ID, k, r.knownHits[k])
 	}
-	if len(r.engineErrs) > 0 {
-		for _, e := range r.engineErrs {
-			fmt.Println("ENGINE-ERROR:", e)
-		}
-		return 2
+	// an engine error makes the run unusable as evidence of absence (exit 2); violations found by the
+	// parts that did run are still real and are reported (exit 1)
+	for _, e := range r.engineErrs {
+		fmt.Println("ENGINE-ERROR:", e)
 	}
 	if len(r.violations) == 0 {
+		if len(r.engineErrs) > 0 {
+			return 2
+		}
 		return 0
 	}
 	os.MkdirAll(filepath.Join(Out, "replays"), 0o755)
